@@ -703,6 +703,16 @@ def fam_surrogates(ctx):
                 yield (f"Surrogates.test_mutual_information|bins={nb},{tag}",
                        lambda a=a, nb=nb: S.test_mutual_information(
                            a, a[::-1].copy(), n_bins=nb).shape)
+                # surrogates whose values leave the range of the original
+                # data on either side (Fourier surrogates of skewed data do)
+                for sc, sh in ((3.0, -1.0), (0.5, 4.0), (2.0, 5.0)):
+                    yield (f"Surrogates.test_mutual_information|bins={nb},"
+                           f"surrogate-range*{sc}{sh:+},{tag}",
+                           lambda a=a, nb=nb, sc=sc, sh=sh:
+                           S.test_mutual_information(
+                               a, (a[::-1] * sc + sh).astype(
+                                   a.dtype if a.dtype.kind == "f"
+                                   else float), n_bins=nb).shape)
             if kind in ("f64", "f32", "nan"):
                 for m in ("white_noise_surrogates",
                           "correlated_noise_surrogates", "AAFT_surrogates"):
